@@ -27,6 +27,8 @@ Proof. destruct a; cbn; congruence. Qed.
 Theorem unsupported_reported : forall p typs, must_report p typs = true -> run_model p typs = Err.
 Proof.
   intros p typs M. destruct p; cbn [must_report] in M; try discriminate.
+  - (* apply *)
+    destruct typs as [|[] [|? [|? ?]]]; try discriminate. subst. apply run_err_of_add. reflexivity.
   - (* clone *)
     destruct typs as [|t [|? ?]]; try discriminate. apply run_err_of_gen. cbn.
     unfold clone_gen. destruct (under t); try (apply unsupported_reported_deepcopy; exact M).
@@ -37,12 +39,16 @@ Proof.
   - (* contains *)
     destruct typs as [|[] [|? [|? ?]]]; try discriminate. apply run_err_of_gen. cbn.
     rewrite (unsup_not_can_equal false _ M). apply unsupported_reported_equal; exact M.
+  - (* curry *)
+    destruct typs as [|[] [|? ?]]; try discriminate. subst. apply run_err_of_add. reflexivity.
   - (* deepcopy *)
     destruct typs as [|t [|? [|? ?]]]; try discriminate. apply run_err_of_gen. cbn.
     apply unsupported_reported_deepcopy; exact M.
   - (* equal *)
     destruct typs as [|t r]; try discriminate.
     apply run_err_of_gen. cbn. apply unsupported_reported_equal; exact M.
+  - (* flip *)
+    destruct typs as [|[] [|? ?]]; try discriminate. subst. apply run_err_of_add. reflexivity.
   - (* gostring *)
     destruct typs as [|t [|? ?]]; try discriminate. apply run_err_of_gen. cbn.
     apply unsupported_reported_gostring; exact M.
